@@ -1,3 +1,4 @@
+import os
 import copy
 import warnings
 import patsy
@@ -451,6 +452,11 @@ class TMLE:
 
         # p-values are not implemented (doing my part to enforce CL over p-values)
         delta = np.where(self.df[self._missing_indicator] == 1, 1, 0)
+        if os.environ.get('ZEPID_VERIF') == '1':  # verification probe: read-only copy of the targeting step's locals
+            self._verif_probe_ = {'Qstar': np.array(Qstar, dtype=float), 'Qstar1': np.array(Qstar1, dtype=float),
+                                  'Qstar0': np.array(Qstar0, dtype=float), 'H1W': np.array(H1W, dtype=float),
+                                  'H0W': np.array(H0W, dtype=float), 'delta': np.array(delta),
+                                  'epsilon': np.array(self._epsilon, dtype=float), 'zalpha': zalpha}
         if self._continuous_outcome:
             # Calculating Average Treatment Effect
             Qstar = tmle_unit_unbound(Qstar, mini=self._continuous_min, maxi=self._continuous_max)
